@@ -20,6 +20,7 @@ pub fn run_worker<P: Property>(a: WorkerArgs) -> ! {
     let mut res = WorkerResult { lo: a.lo, hi: a.hi, ..Default::default() };
     let mut digests = std::collections::HashSet::<u64>::new();
     let mut last = std::fs::OpenOptions::new().create(true).write(true).truncate(true).open(&a.last).expect("last-case file");
+    let _ = HEARTBEAT.set(a.last.with_extension("beat"));
     let mut reservoir_seen = 0u64;
     let mut reported_keys = std::collections::HashSet::<String>::new();
 
@@ -107,6 +108,9 @@ pub fn run_worker<P: Property>(a: WorkerArgs) -> ! {
             });
         }
         res.done = index + 1 - a.lo;
+        if p.fail_fast() && !res.violations.is_empty() {
+            break;
+        }
     }
     res.digests = digests.into_iter().collect();
     std::fs::write(&a.out, serde_json::to_vec(&res).unwrap()).expect("write worker result");
